@@ -27,6 +27,7 @@ type limitStep struct {
 	Limit int64 `json:"limit"`
 	Frags []int `json:"frags"`
 	Comp  bool  `json:"comp"`
+	Final bool  `json:"final"` // the DEFLATE stream of the message ends with a BFINAL=1 block
 	Exp   struct {
 		O         string `json:"o"`
 		N         int    `json:"n"`
@@ -60,10 +61,12 @@ func limitPlain(seed int64, step, size int, comp bool) []byte {
 	return b
 }
 
-func buildMsgFrames(plain []byte, frags []int, comp bool, peerMasks bool, defl *ws.Deflater, rng *rand.Rand) []byte {
+func buildMsgFrames(plain []byte, frags []int, comp, final bool, peerMasks bool, defl *ws.Deflater, rng *rand.Rand) []byte {
 	var out []byte
 	wirePayload := plain
-	if comp {
+	if comp && final {
+		wirePayload = ws.CompressFinal(plain)
+	} else if comp {
 		wirePayload = defl.Compress(plain)
 	}
 	total := 0
@@ -116,7 +119,7 @@ func runLimitCase(rep *Report, lc limitCase, rng *rand.Rand) {
 		}
 		p := limitPlain(lc.Seed, i, size, st.Comp)
 		plains = append(plains, p)
-		stream = append(stream, buildMsgFrames(p, st.Frags, st.Comp && mode.Flate(), !lc.Client, defl, rng)...)
+		stream = append(stream, buildMsgFrames(p, st.Frags, st.Comp && mode.Flate(), st.Final && mode.Flate(), !lc.Client, defl, rng)...)
 	}
 	cl := ws.Frame{Fin: true, Op: ws.OpClose, Masked: !lc.Client, Payload: ws.ClosePayload(1000, "done")}
 	stream = append(stream, cl.Encode()...)
